@@ -479,6 +479,61 @@ func c02Flags(c *Ctx, r *Report) {
 	r.Check(okDissect, rule, fi.Name, "dissect.CompileEx(.., ignoreCase)", c.Pos(fi.Decl.Pos()), "flow: the ignore-case flag reaches the dissect compiler", "the ignore-case flag no longer reaches dissect.CompileEx")
 	r.Check(okRegexIC, rule, fi.Name, "(?i) prefix under ignoreCase", c.Pos(fi.Decl.Pos()), "flow: the ignore-case flag prefixes the regular expression with (?i)", "the ignore-case flag no longer turns into a (?i) prefix of the regular expression")
 	r.Check(okPosix, rule, fi.Name, "fastregex.CompileEx(.., posix)", c.Pos(fi.Decl.Pos()), "flow: the posix flag reaches the regexp compiler", "the posix flag no longer reaches fastregex.CompileEx")
-	r.Floor(rule, 3, "three flag flows")
+	// the pattern handed to either compiler is the user's flag value, at most prefixed with "(?i)": every
+	// assignment of the pattern variable is the flag read or that prefixing
+	for _, cname := range []string{"rare/pkg/matchers/fastregex.CompileEx", "rare/pkg/matchers/dissect.CompileEx"} {
+		ast.Inspect(fi.Decl.Body, func(n ast.Node) bool {
+			ce, ok := n.(*ast.CallExpr)
+			if !ok || calleeName(info, ce) != cname || len(ce.Args) < 1 {
+				return true
+			}
+			pv := identObj(info, ce.Args[0])
+			if pv == nil {
+				r.Bad(rule, fi.Name, exprStr(ce), c.Pos(ce.Pos()), "the pattern argument is a computed expression, not the variable holding the user's pattern: captures would no longer be those of the pattern the user gave")
+				return true
+			}
+			bad := ""
+			check := func(lhs ast.Expr, rhs ast.Expr, pos token.Pos) {
+				if identObj(info, lhs) != pv || rhs == nil {
+					return
+				}
+				rhs = ast.Unparen(rhs)
+				if call, ok := rhs.(*ast.CallExpr); ok && len(call.Args) == 1 {
+					if _, isS := constString(info, call.Args[0]); isS {
+						return // flag read
+					}
+				}
+				if be, ok := rhs.(*ast.BinaryExpr); ok && be.Op == token.ADD {
+					if s, isS := constString(info, be.X); isS && s == "(?i)" && identObj(info, be.Y) == pv {
+						return
+					}
+				}
+				bad = c.Pos(pos) + ": " + exprStr(lhs) + " = " + exprStr(rhs)
+			}
+			ast.Inspect(fi.Decl.Body, func(m ast.Node) bool {
+				switch t := m.(type) {
+				case *ast.AssignStmt:
+					for i, l := range t.Lhs {
+						if len(t.Rhs) == len(t.Lhs) {
+							check(l, t.Rhs[i], t.Pos())
+						} else if identObj(info, l) == pv {
+							bad = c.Pos(t.Pos()) + ": " + exprStr(l) + " assigned from a multi-value expression"
+						}
+					}
+				case *ast.ValueSpec:
+					for i, id := range t.Names {
+						if i < len(t.Values) {
+							check(id, t.Values[i], t.Pos())
+						}
+					}
+				}
+				return true
+			})
+			r.Check(bad == "", rule, fi.Name, "pattern of "+exprStr(ce.Fun), c.Pos(ce.Pos()), "flow: the compiled pattern is the user's flag value, at most prefixed with the constant (?i)",
+				"the pattern is rewritten before it is compiled ("+bad+"): the matcher then implements a different expression than the one selected, so captures are not those of its leftmost match (e.g. folding i into a leading (?: group limits the flag to that group)")
+			return true
+		})
+	}
+	r.Floor(rule, 5, "three flag flows and two pattern flows")
 	_ = fmt.Sprint
 }
